@@ -336,7 +336,7 @@ def _bat_pb_sb(which):
         # SPEC: the sector-bitmap entry of chunk c = b div ChunkRatio follows that chunk's ChunkRatio payload entries
         return [("bitmap_index", idx == (b0 / m.cr) * (m.cr + 1) + m.cr)]
 
-    return FnContract(FILE, f"BlockAllocationTable.{which}", ["C03"] if which == "pb" else ["C07"], BatModel,
+    return FnContract(FILE, f"BlockAllocationTable.{which}", ["C03", "C13"] if which == "pb" else ["C07", "C13"], BatModel,
                       params=lambda m: {"self": ObjV("self"), "block": IntV(b0)},
                       requires=lambda m: m.hyps + [b0 >= 0], post=post, raises={"ValueError": None},
                       note="chunk ratio symbolic: covers disks large enough that sector-bitmap entries are interleaved in the BAT")
